@@ -27,6 +27,30 @@ RULES = {
 
 
 def run(ck, m):
+    _run(ck, m)
+    # the in-place key update writes at the key_disk_addr kept in memory: a wrong address damages a NEIGHBOUR's record at the next
+    # incremental snapshot.  The three address rules are C06's (g, h, i); their verdicts are repeated here because "never a changed
+    # neighbour" depends on them
+    from nl import report
+    from props import C06
+    ck.rule('C11.g', 'the addresses the in-place key update writes at are right: the key-file size is measured after the reclaiming rename '
+                     '(C06.g), the loader advances its running offset for every record (C06.h), the writer records an offset before it '
+                     'advances it (C06.i)')
+    tmp = report.Check('C06', 'quick', 0)
+    try:
+        C06.offsets_rules(tmp, m)
+    except Exception as e:      # fail closed
+        ck.undecided('C11.g', 'offsets', 'rules', 'C06.g-i could not be evaluated: %s' % e)
+    n = 0
+    for o in tmp.obs:
+        if o['rule'] in ('C06.g', 'C06.h', 'C06.i'):
+            n += 1
+            parts = o['key'].split(':', 2)
+            ck.ob('C11.g', parts[1], parts[2] if len(parts) > 2 else 'rule', o['verdict'] == 'discharged', o['what'], o['loc'], verdict=o['verdict'])
+    ck.floor('C11.g', n, 3, 'address rules of C06 evaluated')
+
+
+def _run(ck, m):
     for k, v in RULES.items():
         ck.rule(k, v)
     P = m.prog
